@@ -172,6 +172,10 @@ def _scalar_projection_shape(fn):
         return None, "unexpected signature"
     S = roles.stores(fn.body, defs, lv=False)
     acc = [s for s in S if s.op == "Add=" and isinstance(s.tnode, ast.Subscript) and unparse(s.tnode.value) == P["PROJ"]]
+    if not acc:
+        other = [s for s in S if isinstance(s.tnode, ast.Subscript) and unparse(s.tnode.value) == P["PROJ"] and len(s.loops) == 2]
+        if len(other) == 1:
+            return False, "the element contribution is not ADDED to the projection vector (`%s` with operator %s): contributions of different elements to one dof do not sum" % (other[0].target[:50], other[0].op)
     if len(acc) != 1 or len(acc[0].loops) != 2 or acc[0].guards:
         return None, "no single unguarded `projections[...] += ...` inside (element loop, local function loop)"
     a = acc[0]
@@ -345,6 +349,10 @@ def _vertex_average_shape(fv):
         return None, "does not return one local array"
     VAL = rets[0].vnode.id
     acc = [s for s in S if s.op == "Add=" and isinstance(s.tnode, ast.Subscript) and unparse(s.tnode.value) == VAL]
+    if not acc:
+        other = [s for s in S if isinstance(s.tnode, ast.Subscript) and unparse(s.tnode.value) == VAL and len(s.loops) == 2]
+        if len(other) == 1:
+            return False, "the element's vertex value is not ADDED to the vertex sum (`%s` with operator %s): a vertex shared by several elements keeps one contribution or their negative" % (other[0].target[:50], other[0].op)
     if len(acc) != 1 or len(acc[0].loops) != 2 or acc[0].guards:
         return None, "no single accumulation `values[:, vertex] += ...` inside (element loop, local vertex loop)"
     a = acc[0]
